@@ -70,3 +70,29 @@ def cluster(rng, ra0, dec0, size_deg, n):
     """n points inside a cap of the given angular size, denser towards the centre"""
     d = size_deg * np.sqrt(rng.uniform(0, 1, size=n)) * rng.choice([1.0, 0.3, 0.05], size=n)
     return offset(rng, ra0, dec0, d, n=n)
+
+
+# --- the published HTM subdivision (Kunszt, Szalay & Thakar 2001): corners of a triangle from its id ---------------
+# Used only to *place* test positions (near a chosen triangle's corner); which triangle a position belongs to is
+# always asked of the library (lookup_id), and a candidate whose id does not come back as intended is dropped.
+_V = [np.array(v, dtype=LD) for v in ((0, 0, 1), (1, 0, 0), (0, 1, 0), (-1, 0, 0), (0, -1, 0), (0, 0, -1))]
+_ROOTS = {8: (1, 5, 2), 9: (2, 5, 3), 10: (3, 5, 4), 11: (4, 5, 1), 12: (1, 0, 4), 13: (4, 0, 3), 14: (3, 0, 2), 15: (2, 0, 1)}
+
+
+def _mid(a, b):
+    m = a + b
+    return m / np.sqrt((m * m).sum())
+
+
+def triangle_corners(tid, depth):
+    """(3, 3) long-double unit vectors (rows) of the corners of triangle `tid` at `depth`"""
+    tid = int(tid)
+    digits = []
+    for _ in range(depth):
+        digits.append(tid & 3)
+        tid >>= 2
+    a, b, c = (_V[i] for i in _ROOTS[tid])
+    for k in reversed(digits):
+        w0, w1, w2 = _mid(b, c), _mid(a, c), _mid(a, b)
+        a, b, c = [(a, w2, w1), (b, w0, w2), (c, w1, w0), (w0, w1, w2)][k]
+    return np.array([a, b, c])
